@@ -12,6 +12,11 @@ RealAsVal = Function('RealAsVal', RealSort(), Val)
 class FullEngine(Engine):
     # ------------------------------------------------------------------------------------------- expressions
     def expr(self, e, st, hint=None):
+        if isinstance(hint, TAny) and isinstance(e, (ast.Dict, ast.List, ast.Tuple, ast.Constant, ast.JoinedStr)):
+            for sub in ast.walk(e):
+                if isinstance(sub, (ast.Call, ast.Yield, ast.NamedExpr)): break
+            else:
+                return PV(ANY, FreshConst(AnyS, 'opaque'))           # a literal stored where its inside is never looked at
         if isinstance(e, ast.Constant):
             v = e.value
             if isinstance(v, bool): return PV(BOOL, BoolVal(v))
@@ -445,6 +450,7 @@ class FullEngine(Engine):
             dv = self.coerce(st, d, t.v)
             return self.from_term(st, t.v, If(present, t.get(cur, k), dv), frozen=True)
         if m == 'pop':
+            if getattr(recv, 'shallow_copy', False): raise Unsupported('aliasing: key set of a shallow dict copy is changed')
             k = self.coerce(st, self.expr(c.args[0], st, hint=t.k), t.k)
             if len(c.args) == 1: self.oblige(st, 'safety', 'dict.pop-present[%s]' % ast.unparse(c), t.has(cur, k))
             val = t.get(cur, k)
